@@ -29,6 +29,7 @@ def gen_scenario(rng):
     nid = 0
     n = rng.choice([4, 8, 15, 30, 50])
     have_handle = False
+    gadds = rng.choice([0, 0, 0, 1, 2])
     for _ in range(n):
         r = rng.random()
         c = rng.randint(1, nch)
@@ -49,9 +50,13 @@ def gen_scenario(rng):
             ops.append(f"del ch={c} flush={rng.choice([0, 0, 1])}")
         elif r < 0.91:
             ops.append(f"closeall flush={rng.choice([0, 1])}")
-        elif r < 0.95:
+        elif r < 0.93:
             ops.append(f"get ch={c}")
             have_handle = True
+        elif r < 0.96 and gadds > 0:
+            gadds -= 1
+            nid += 1
+            ops.append(f"gadd ch={c} f={f} key={key} id={nid} size={size} delay={delay} latest={latest}")
         elif have_handle:
             nid += 1
             ops.append(f"addh f={f} key={key} id={nid} size={size} delay={delay} latest={latest}")
@@ -62,6 +67,73 @@ def gen_scenario(rng):
     if rng.random() < 0.5:
         ops.append(f"closeall flush={rng.choice([0, 1, 1])}")
     return ops
+
+
+def gen_client_scenario(rng):
+    """publications, joins and leaves through a real Node + Client with a channel batch config"""
+    while True:
+        size = rng.choice([0, 0, 2, 3, 5])
+        delay = rng.choice([0, 5, 10, 10])
+        if size or delay:
+            break
+    latest = rng.choice([0, 0, 0, 1])
+    ops = [f"creset delay={delay} size={size} latest={latest}"]
+    nid = 0
+    for _ in range(rng.choice([4, 8, 14, 24])):
+        if rng.random() < 0.75:
+            nid += 1
+            ops.append(f"cadd f={rng.choice(['p', 'p', 'p', 'j', 'l', 'l'])} id={nid}")
+        else:
+            d = max(delay, 1)
+            ops.append(f"csleep {rng.choice([1, d - 1, d, d + 1, 2 * d])}")
+    ops.append(f"csleep {max(delay, 1) + 1}")
+    return ops
+
+
+def client_oracle(sc, out):
+    cfg = kvs(sc[0])
+    latest, delay = cfg["latest"] == "1", int(cfg["delay"])
+    produced, kinds, delivered = [], {}, []
+    for op, o in zip(sc, out):
+        ws = op.split()
+        if o == "<missing>":
+            return f"no output for `{op}` (crash, deadlock or hang)"
+        if o == "PANIC" or o.endswith("-failed"):
+            return f"`{op}`: {o}"
+        if ws[0] == "creset":
+            continue
+        if o == "bad-op":
+            return "harness rejected op " + op
+        if ws[0] == "cadd":
+            kv = kvs(op)
+            produced.append(int(kv["id"]))
+            kinds[int(kv["id"])] = kv["f"]
+        got = [int(x) for x in o[len("seq=["):-1].split(",") if x]
+        for i in got:
+            if i not in kinds:
+                return f"at `{op}` the connection received push {i} that was never produced"
+            if i in delivered:
+                return f"push {i} delivered twice"
+            delivered.append(i)
+        if not latest:
+            if delivered != produced[:len(delivered)]:
+                return (f"at `{op}` the connection received the channel's pushes as {delivered[-6:]} but they were "
+                        f"produced in the order {produced[max(0, len(delivered) - 6):len(delivered)]}")
+        else:
+            np = [i for i in delivered if kinds[i] != "p"]
+            if np != [i for i in produced if kinds[i] != "p"][:len(np)]:
+                return f"at `{op}` join/leave pushes were delivered out of order or lost: {np[-6:]}"
+            pubs = [i for i in delivered if kinds[i] == "p"]
+            if pubs != sorted(pubs):
+                return f"at `{op}` an older publication was delivered after a newer one: {pubs[-6:]}"
+        if ws[0] == "csleep" and delay > 0 and int(ws[1]) >= delay:
+            missing = [i for i in produced if i not in delivered and (not latest or kinds[i] != "p")]
+            if latest:
+                lastpub = [i for i in produced if kinds[i] == "p"][-1:]
+                missing += [i for i in lastpub if i not in delivered]
+            if missing:
+                return f"after `{op}` pushes {missing[:6]} are still not delivered although MaxDelay {delay}ms elapsed"
+    return None
 
 
 def kvs(op):
@@ -95,6 +167,8 @@ def coalesce(pending):
 
 def oracle(sc, out):
     """Writers are tracked by identity (a channel maps to a writer; `get` keeps a handle)."""
+    if sc and sc[0].startswith("creset"):
+        return client_oracle(sc, out)
     writers = {}      # wid -> dict(pending=[items], latest flags seen, closed)
     chmap = {}        # channel -> wid
     item_w = {}       # id -> wid
@@ -138,6 +212,13 @@ def oracle(sc, out):
         if ws[0] == "reset":
             writers, chmap, item_w, delivered, handle = {}, {}, {}, set(), None
             continue
+        late_add = None
+        if ws[0] == "gadd":
+            # the Add races a timer flush that is held in the flush callback: batches without the new
+            # item were cut before the Add, so they are judged first
+            if kv["ch"] not in chmap:
+                chmap[kv["ch"]] = new_writer()
+            late_add = (chmap[kv["ch"]], kv)
         if ws[0] == "add":
             if kv["ch"] not in chmap:
                 chmap[kv["ch"]] = new_writer()
@@ -153,8 +234,15 @@ def oracle(sc, out):
             dropped_now = [chmap[kv["ch"]]]
         if ws[0] == "closeall" and kv["flush"] == "0":
             dropped_now = list(chmap.values())
-        for g in parse_out(o):
+        batches = [b for g in parse_out(o) for b in g]
+        if late_add:
+            nid_ = int(late_add[1]["id"])
+            batches = [b for b in batches if nid_ not in b] + ["ADD"] + [b for b in batches if nid_ in b]
+        for g in [batches]:
             for b in g:
+                if b == "ADD":
+                    do_add(late_add[0], late_add[1])
+                    continue
                 if not b:
                     continue
                 wids = {item_w.get(i) for i in b}
@@ -213,8 +301,8 @@ def oracle(sc, out):
                         and d >= max(w["delays"]):
                     return (f"after `{op}` items {[x['id'] for x in w['pending']]} are still buffered although "
                             f"MaxDelay {max(w['delays'])}ms elapsed")
-        if ws[0] in ("add", "addh"):
-            wid = chmap[kv["ch"]] if ws[0] == "add" else handle
+        if ws[0] in ("add", "addh", "gadd"):
+            wid = chmap[kv["ch"]] if ws[0] != "addh" else handle
             w = writers[wid]
             if w["pending"] and len(w["sizes"]) == 1 and 0 not in w["sizes"] and len(w["modes"]) == 1:
                 cnt = len(w["pending"]) if w["modes"] == {"0"} else len(coalesce(w["pending"]))
@@ -236,7 +324,7 @@ def split_scenarios(ops):
             scs.append([op])
             cur = []
             continue
-        if op.split()[0] == "reset" and cur:
+        if op.split()[0] in ("reset", "creset") and cur:
             scs.append(cur)
             cur = []
         cur.append(op)
@@ -249,7 +337,9 @@ def run(ctx):
     ctx.rule = ("random scenarios over 1-3 channels with per-channel batch configs (MaxSize in {0,1,2,3,5}, MaxDelay in "
                 "{0,5,10}ms, FlushLatestPublication on/off, 12% with a config that varies per add): add "
                 "publication/join/leave with keys, virtual sleeps around the delay, delWriter/Close with and "
-                "without flush, handle obtained before delWriter and used after; non-trivial = a flush or a drop "
+                "without flush, handle obtained before delWriter and used after, Add racing a timer flush held in the "
+                "flush callback; plus client-level scenarios (publication/join/leave through a real Node+Client with a "
+                "batch config); non-trivial = a flush or a drop "
                 "happened; distinct = distinct scenario text")
     ctx.assumptions = ["several channel timers due at the same virtual instant may fire in any order: batches are "
                        "compared as a multiset per instant",
@@ -281,6 +371,7 @@ def run(ctx):
         corpus = [l.strip() for l in open(os.path.join(here, "corpus.ops")) if l.strip() and not l.startswith("#")]
         scs = split_scenarios(corpus) + [gen_scenario(ctx.rng) for _ in range(ctx.scale(2500, 25000))]
         scs += [[f"race {d}"] for d in (5, 10, 50)]
+        scs += [gen_client_scenario(ctx.rng) for _ in range(ctx.scale(120, 3000))]
     ops = [op for s in scs for op in s]
     ctx.log("harness built")
     impl = ctx.go_run(binary, "TestVerifC13", ops, timeout=ctx.scale(300, 1500))
@@ -296,10 +387,12 @@ def run(ctx):
         mout = model[pos:pos + len(s)]
         pos += len(s)
         out = out + ["<missing>"] * (len(s) - len(out))
-        flushed = any(o.startswith("out=") and o != "out=-" for o in out)
+        flushed = any((o.startswith("out=") and o != "out=-") or (o.startswith("seq=[") and o != "seq=[]") for o in out)
         ctx.record("\n".join(s), nontrivial=flushed or any(" flush=0" in op for op in s))
         for op, o in zip(s, out):
             ctx.count(op.split()[0])
+            if o.startswith("seq=[") and o != "seq=[]":
+                ctx.count("client-delivery:" + op.split()[0])
             if o.startswith("out=") and o != "out=-":
                 ctx.count("flush:" + op.split()[0])
         msg = oracle(s, out)
@@ -311,14 +404,14 @@ def run(ctx):
             nviol += 1
             if nviol <= 3:
                 def fails(sub):
-                    sub = ["reset"] + [x for x in sub if x != "reset"]
+                    sub = [s[0]] + [x for x in sub if x != s[0]]
                     o = ctx.go_run(binary, "TestVerifC13", sub)
                     m = oracle(sub, o + ["<missing>"] * (len(sub) - len(o)))
                     return m is not None and not m.startswith("harness rejected")
                 small = s
                 try:
                     if fails(s):
-                        small = ["reset"] + [x for x in ddmin(s, fails) if x != "reset"]
+                        small = [s[0]] + [x for x in ddmin(s, fails) if x != s[0]]
                 except Exception as e:
                     ctx.notes.append(f"shrink failed: {e}")
                 so = ctx.go_run(binary, "TestVerifC13", small)
